@@ -110,53 +110,57 @@ Theorem C04_activation_guard_oracle : forall n cur obs,
 Proof. exact k_ok_activate_iff. Qed.
 
 (** Repository migration rides on the key roll (model ca/Migrate.v, third scenario `migrate`): in every state
-    reachable by any interleaving of migrations, roll steps of the individual classes, class additions and
-    removals, certificate re-issues and clean-ups, a repository that is on the deprecated list - which the next
-    synchronisation empties completely - is not the place where any key set of any class publishes. *)
+    reachable by ANY interleaving of migrations (also back to a repository that still awaits its clean-up), roll
+    steps of the individual classes, class additions and removals, certificate re-issues and clean-ups - no
+    assumption about the environment - a repository that is on the deprecated list, which the next synchronisation
+    empties completely, is not the place where any key set of any class publishes. *)
 Theorem C04_migration_safe : forall r0 st, reachable r0 st ->
   forall r c cs s, In r (m_depr st) -> In (c, cs) (m_classes st) -> In s (sets_of cs) -> publishes_at (m_repo st) s <> r.
 Proof. exact migration_safe. Qed.
 
-(** ... and this depends on [has_old_repo] looking at BOTH sets of a class in the Staging state, and on a migration
-    never targeting a repository that still awaits its clean-up (which the code does not prevent). *)
-Theorem C04_migration_weak_arm_refuted :
-  exists st, run_weak (minit 0) critical_ops = Some st /\ ~ safe st.
-Proof. exact weak_has_old_repo_refuted. Qed.
-
-Theorem C04_migration_needs_cleanup_first_refuted :
-  exists st, reachable_any 0 st /\ ~ safe st.
-Proof. exact migration_safe_needs_admissible_refuted. Qed.
-
-(** Every key set publishes at the repository its key's certificate points to, provided no certificate is
-    re-issued for a key that is still tied to the old repository; with such a re-issue it does not. *)
-Theorem C04_migration_located : forall r0 st, reachable_loc r0 st ->
+(** Every key set publishes at the repository its key's certificate points to, in every reachable state - also when
+    certificates are re-issued in the middle of a migration. *)
+Theorem C04_migration_located : forall r0 st, reachable r0 st ->
   forall c cs, In (c, cs) (m_classes st) ->
     (forall s, In s (sets_of cs) -> publishes_at (m_repo st) s = s_at s) /\ pend_ok (m_repo st) cs.
 Proof. exact migration_located. Qed.
 
-Theorem C04_migration_located_refuted : exists st, reachable 0 st /\ ~ located st.
-Proof. exact located_refuted. Qed.
+(** Regression witnesses - each of the two statements is false for an earlier behaviour of the code: [has_old_repo]
+    looking at the staging set only in the Staging arm (seeded change); a migration that leaves its target on the
+    deprecated list (before /repo 1c1bdf32, F04e); a re-issued certificate naming the new repository for a key that
+    still publishes at the old one (before /repo c6a66d92, F04d). *)
+Theorem C04_migration_weak_arm_refuted :
+  exists st, run_gen weak (minit 0) critical_ops = Some st /\ ~ safe st.
+Proof. exact weak_has_old_repo_refuted. Qed.
+
+Theorem C04_migration_pinned_deprecated_refuted :
+  exists st, reachable_gen pinned_depr 0 st /\ ~ safe st.
+Proof. exact pinned_deprecated_refuted. Qed.
+
+Theorem C04_migration_pinned_key_refuted :
+  exists st, reachable_gen pinned_key 0 st /\ ~ located st.
+Proof. exact pinned_key_refuted. Qed.
 
 (** The migration completes: the step that takes the last set away from a repository puts it on the deprecated
-    list, and once every class is back to a single active key the repository migrated away from is deprecated
-    (or already cleaned). *)
+    list, and once every class is back to a single active key the repository migrated away from is deprecated, or
+    already cleaned, or has become the CA's repository again. *)
 Theorem C04_migration_last_user_deprecates : forall st op st' x,
   Inv st -> mstep st op = Some st' -> uses st x -> ~ uses st' x -> In x (m_depr st').
 Proof. exact last_user_deprecates. Qed.
 
 Theorem C04_migration_completes : forall ops st st' x,
-  Inv st -> all_admissible st ops -> run st ops = Some st' ->
+  Inv st -> run st ops = Some st' ->
   uses st x ->
   (forall c cs, In (c, cs) (m_classes st') -> finished cs) ->
-  In x (m_depr st') \/ In (OClean x) ops.
+  In x (m_depr st') \/ In (OClean x) ops \/ In (OUpdateRepo x) ops.
 Proof. exact old_repo_deprecated_when_done. Qed.
 
 Theorem C04_migration_invariant_reachable : forall r0 st, reachable r0 st -> Inv st.
 Proof. exact reachable_inv. Qed.
 
-(** Tie: the oracle of the scenario evaluates exactly the invariant / the safety statement on the implementation's
-    states, and a case on which model and implementation agree carries the invariant from its first state to the
-    states after the command and after the repository synchronisation. *)
+(** Tie: the oracle of the scenario evaluates exactly the invariant / the two statements on the implementation's
+    states, and a case on which model and implementation agree carries them from its first state to the states
+    after the command and after the repository synchronisation. *)
 Theorem C04_migration_invariant_executable : forall st, inv_b st = true <-> Inv st.
 Proof. exact inv_b_spec. Qed.
 
@@ -167,9 +171,12 @@ Theorem C04_migration_located_executable : forall st, located_b st = true <-> lo
 Proof. exact located_b_spec. Qed.
 
 Theorem C04_migration_agrees_keeps_invariant : forall c,
-  m_agrees c = true -> m_adm c = true -> Inv (mc_pre c) -> Inv (mc_mid c) /\ Inv (mc_post c).
+  m_agrees c = true -> Inv (mc_pre c) -> Inv (mc_mid c) /\ Inv (mc_post c).
 Proof. exact agrees_keeps_invariant. Qed.
 
+Theorem C04_migration_agrees_keeps_located : forall c,
+  m_agrees c = true -> Inv (mc_pre c) -> located (mc_pre c) -> located (mc_mid c) /\ located (mc_post c).
+Proof. exact agrees_keeps_located. Qed.
 
 Print Assumptions C04_activation_guard_oracle.
 Print Assumptions C04_listener_accepts_and_mirrors.
@@ -191,9 +198,9 @@ Print Assumptions C04_remove_keeps_disjoint.
 Print Assumptions C04_activation_keeps_issued.
 Print Assumptions C04_migration_safe.
 Print Assumptions C04_migration_weak_arm_refuted.
-Print Assumptions C04_migration_needs_cleanup_first_refuted.
+Print Assumptions C04_migration_pinned_deprecated_refuted.
 Print Assumptions C04_migration_located.
-Print Assumptions C04_migration_located_refuted.
+Print Assumptions C04_migration_pinned_key_refuted.
 Print Assumptions C04_migration_last_user_deprecates.
 Print Assumptions C04_migration_completes.
 Print Assumptions C04_migration_invariant_reachable.
@@ -201,3 +208,4 @@ Print Assumptions C04_migration_invariant_executable.
 Print Assumptions C04_migration_safe_executable.
 Print Assumptions C04_migration_located_executable.
 Print Assumptions C04_migration_agrees_keeps_invariant.
+Print Assumptions C04_migration_agrees_keeps_located.
